@@ -374,6 +374,20 @@ pub fn block_filters_mutants(c: &SimChain, tip: usize, start: u64, n: usize, rng
         fj[i] = 0;
         out.push(FilterMutant { label: format!("tamper[{}]", i), start, fs: fj, hs: j(&some(&ids)), msg: build(start, &fs, &some(&ids), Some(i)) });
     }
+    // the genuine batch followed by more filters (bytes no filter decoder accepts) and block hashes than the
+    // client can have filter hashes for: whatever lies beyond the verified prefix must not even be decoded
+    {
+        let m = rng.gen_range(1..=30usize);
+        let mut fs = some(&ids);
+        let mut hs = some(&ids);
+        fs.extend(std::iter::repeat(None).take(m));
+        hs.extend(std::iter::repeat(None).take(m));
+        let mut fj = j(&fs);
+        for x in fj.iter_mut().skip(k) {
+            *x = 0;
+        }
+        out.push(FilterMutant { label: format!("excess-garbage+{}", m), start, fs: fj, hs: j(&hs), msg: build(start, &fs, &hs, None) });
+    }
     // two filters swapped (hashes kept)
     if k >= 2 {
         let mut f2 = ids.clone();
